@@ -93,4 +93,35 @@ def histOk (p : Packetizer) (fs : List FrameIn) (obs : List FrameObs) : Bool :=
 def histOkWhole (p : Packetizer) (fs : List FrameIn) (expect : Bytes) (obs : List FrameObs) : Bool :=
   histTrain p (p.seq.seq + 1) p.ts fs obs && wholeOk expect obs
 
+/-! ### the hypotheses of the theorems of Rtp/Props/Pipeline.lean, executable (the driver's `wf`) -/
+
+def framesNonEmpty (fs : List FrameIn) : Bool := fs.all (fun f => !f.frame.isEmpty)
+
+/-- G.711 / G.722: one payload byte per packet must fit -/
+def wfG711 (pk : Packetizer) (fs : List FrameIn) : Bool :=
+  cfgOk pk && decide (overhead pk + 1 ≤ pk.mtu.toNat) && framesNonEmpty fs
+
+/-- Opus: every frame fits one packet (the payloader never fragments) -/
+def wfOpus (pk : Packetizer) (fs : List FrameIn) : Bool :=
+  cfgOk pk && framesNonEmpty fs && fs.all (fun f => decide (overhead pk + f.frame.length ≤ pk.mtu.toNat))
+
+/-- the longest descriptor the VP8 payloader writes: 1 octet without picture ids, 4 with -/
+def vp8MaxHdr (enable : Bool) : Nat := if enable then 4 else 1
+
+/-- VP8: room for the longest descriptor and one byte -/
+def wfVP8 (enable : Bool) (pk : Packetizer) (fs : List FrameIn) : Bool :=
+  cfgOk pk && decide (overhead pk + vp8MaxHdr enable + 1 ≤ pk.mtu.toNat) && framesNonEmpty fs
+
+/-- the 15-bit picture id the VP9 payloader uses for its next frame -/
+def vp9Pid (st : VP9Pay) : UInt16 := if st.initialized then st.pictureID else st.init &&& 0x7FFF
+
+/-- VP9, flexible mode: room for the 3-octet descriptor and one byte -/
+def wfVP9Flex (st : VP9Pay) (pk : Packetizer) (fs : List FrameIn) : Bool :=
+  st.flexible && decide (vp9Pid st < 32768) && cfgOk pk && decide (overhead pk + 4 ≤ pk.mtu.toNat) &&
+  framesNonEmpty fs
+
+/-- H264: C10's bound (3 bytes for the payloader) and C10's hypotheses on every frame -/
+def wfH264 (pk : Packetizer) (frames : List H264Frame) : Bool :=
+  cfgOk pk && decide (overhead pk + 3 ≤ pk.mtu.toNat) && frames.all H264Frame.wf
+
 end Rtp.Pred.Pipeline
